@@ -61,6 +61,9 @@ LAYOUTS = {
     ),
 }
 OPS = ("u", "d", "u2", "u3", "uf", "un", "ut", "c", "b", "D")
+# histories with an uncommitted edit of an unrelated tracked file (w) and `update --allow-dirty` (ua): not part of the BFS alphabet
+SCRIPTS = [("w", "ua"), ("w", "u"), ("u", "w", "ua"), ("w", "ua", "u"), ("w", "ua", "w", "ua"), ("b", "w", "ua", "b", "u"), ("w", "un", "ua"), ("c", "w", "ua", "c", "u"),
+           ("w", "ua", "d", "ua"), ("u2", "w", "ua", "u3")]
 
 
 def bounds(tier, seed):
@@ -72,6 +75,7 @@ def explore(tier, seed):
     depth = 3 if tier == "quick" else 5
     chunks = []
     for layout in LAYOUTS:
+        chunks.append(("scripts", layout, SCRIPTS, 0))
         for prefix in itertools.product(OPS, repeat=2 if depth > 2 else 1):
             chunks.append(("bfs", layout, prefix, depth))
         if tier == "thorough":
@@ -194,6 +198,12 @@ def apply_op(st, layout, op, date, history):
         gw.commit_all("unrelated work")
         st.outcomes["op:unrelated-commit"] += 1
         return date
+    if op == "w":
+        # the user leaves an uncommitted edit in a tracked file that is not part of the configuration
+        with open("notes.txt", "a") as f:
+            f.write("work in progress\n")
+        st.outcomes["op:uncommitted-edit"] += 1
+        return date
     if op == "b":
         cur = gw.git("rev-parse", "--abbrev-ref", "HEAD").strip()
         r = gw.git("checkout", "-q", "side" if cur == "main" else "main", check=False)
@@ -203,7 +213,8 @@ def apply_op(st, layout, op, date, history):
     before_tree = world.read_tree(".")
     prev = shown()
     clean = before["status"] == []
-    flags = {"u": L["u"], "u2": L["u2"], "u3": L["u3"], "uf": L["fail"], "un": L["u"] + ["--no-commit"], "ut": L["u"] + ["--no-tag-commit"]}[op]
+    flags = {"u": L["u"], "u2": L["u2"], "u3": L["u3"], "uf": L["fail"], "un": L["u"] + ["--no-commit"], "ut": L["u"] + ["--no-tag-commit"],
+             "ua": L["u"] + ["--allow-dirty"]}[op]
     o = world.cli("update", "--no-fetch", *flags)
     st.evaluations += 1
     st.validated += 1
@@ -246,7 +257,11 @@ def apply_op(st, layout, op, date, history):
         extra = [f for f in files if f not in configured]
         if extra:
             bad("bump-commit-contains-other-files", files=files)
-    if after["status"]:
+    if op == "ua":
+        # what the user had not committed is still uncommitted, and nothing else is pending
+        if after["status"] != before["status"]:
+            bad("pending-changes-differ-after-allow-dirty-update", before=before["status"], after=after["status"])
+    elif after["status"]:
         bad("work-tree-not-clean-after-committing-update", status=after["status"])
     tags_now = [l.split(" ")[0] for l in after["tags"]]
     if op == "ut":
@@ -312,6 +327,18 @@ def run_chunk(chunk):
         dfs(st, layout, root, date, hist, depth - len(prefix), seen, base)
         if prefix == ("u", "b"):
             st.sample({"layout": layout, "prefix": list(prefix), "depth": depth, "tags": gw.state()["tags"], "occurrences": occurrences(layout)})
+    elif chunk[0] == "scripts":
+        _k, layout, scripts, _n = chunk
+        for script in scripts:
+            root = os.path.join(base, "script")
+            date = make_repo(layout, root)
+            hist = []
+            for op in script:
+                os.chdir(root)
+                date = apply_op(st, layout, op, date, hist)
+                hist.append(op)
+                st.state(canonical(date))
+            st.observe((layout, script, gw.state()["tags"], gw.state()["status"]))
     else:
         _k, layout, devs, n = chunk
         for dev in devs:
